@@ -556,10 +556,10 @@ func runReplayerWorld(rc *RunCtx) (out *Outcome) {
 		maxOps = 60
 	}
 	// swarm: per-run operation mix (balanced, put-heavy so that the buffer grows, collection-heavy)
-	profiles := [][]int{{10, 6, 2, 5, 2}, {30, 4, 2, 3, 3}, {10, 6, 8, 8, 4}}
+	profiles := [][]int{{10, 6, 2, 5, 2, 1}, {30, 4, 2, 3, 3, 1}, {10, 6, 8, 8, 4, 2}}
 	profile := ch.Weighted([]int{3, 2, 2}, "op profile")
 	for i := 0; i < maxOps && ch.Chance(num, den, "more ops") && len(o.Violations) == 0; i++ {
-		weights := []int{10, 6, 0, 0, 0}
+		weights := []int{10, 6, 0, 0, 0, 0}
 		if !w.finite {
 			weights = profiles[profile]
 		}
@@ -574,6 +574,13 @@ func runReplayerWorld(rc *RunCtx) (out *Outcome) {
 			w.gcHi = w.now
 			w.checkRetention("explicit GC")
 			o.fault("explicit GC")
+		case 5:
+			// GCInterval is an exported field: it may be changed while the replayer is in use
+			vals := []time.Duration{0, w.ttl / 4, w.ttl * 3, w.ttl / 20}
+			w.vr.GCInterval = vals[ch.Intn(len(vals), "new gc interval")]
+			w.gcInt = w.vr.GCInterval
+			w.op("GCInterval = %v", w.gcInt)
+			o.probe("GCInterval changed during the history")
 		case 4:
 			// macro: expire a chosen prefix, collect, and look at the result at once
 			// (faults placed right after a state change, not uniformly)
